@@ -520,7 +520,9 @@ example : (runLoads codeStyle
 `.keyFirst` (CA) and `.tmpRename` (autosave); the two statements below say, in the source's own
 identifiers, that this is what the code does: the key is stored before the certificate, the
 certificate is the marker whose absence triggers generation, and autosave writes a temporary file
-and renames it, after the old configuration was stopped. A reordering in the source breaks them. -/
+(`ConfigAutosavePath` + a suffix) and renames it over `ConfigAutosavePath`, never writing that file in place,
+after the old configuration was stopped. The extractor follows helpers of the same file and resolves local
+variables and parameters, so extracting these steps into a helper does not change the facts; a reordering does. -/
 
 theorem ca_write_order_matches_source :
     Gen.genRootStores = ["storageKeyRootKey", "storageKeyRootCert"] ∧
@@ -529,7 +531,9 @@ theorem ca_write_order_matches_source :
     Gen.intermediateMarker = "storageKeyIntermediateCert" := by decide
 
 theorem autosave_program_matches_source :
-    Gen.autosaveOps = ["MkdirAll(dir)", "WriteFile(tmpPath,cfgJSON)", "Rename(tmpPath,ConfigAutosavePath)"] ∧
+    Gen.autosaveOps = ["MkdirAll", "WriteFile", "Rename"] ∧
+    Gen.autosaveWritesTempThenRenames = true ∧
+    Gen.autosaveNeverWritesInPlace = true ∧
     Gen.autosaveAfterSwap = true := by decide
 
 end CaddyModel.C14
